@@ -32,7 +32,20 @@ SPEC = json.loads(r"""{spec}""")
 def arr(a):
     if a["shape"] == [] and a.get("pyscalar"):
         return a["data"]
-    return np.array(a["data"], dtype=a["dtype"]).reshape(a["shape"])
+    x = np.array(a["data"], dtype=a["dtype"]).reshape(a["shape"])
+    lay = a.get("layout", "C")
+    if lay == "T":
+        x = np.ascontiguousarray(x.T).T
+    elif lay == "sliced":
+        base = np.zeros(x.shape[:-1] + (2 * x.shape[-1],), dtype=x.dtype)
+        base[..., ::2] = x
+        x = base[..., ::2]
+    elif lay.startswith("broadcast:"):
+        d = int(lay.split(":")[1])
+        x = np.broadcast_to(np.take(x, [0], axis=d), x.shape)
+    elif lay == "readonly":
+        x.flags.writeable = False
+    return x
 
 def tup(v):
     return tuple(tup(x) for x in v) if isinstance(v, list) else v
